@@ -1,6 +1,6 @@
 (* encoders used by the correspondence checks (results: nested lists / tuples of Z and bool) *)
 From Coq Require Import ZArith List Bool.
-From KV.rt Require Import TimeoutModel RtModel.
+From KV.rt Require Import TimeoutModel RtModel ReplModel.
 Import ListNotations.
 Open Scope Z_scope.
 
@@ -14,6 +14,10 @@ Definition sizes_list (v : vm) : list Z :=
 (* C07: the history of host operations from a fresh instance *)
 Definition history_out (ops : list hostop) : list (Z * list Z) :=
   map (fun r => (hres_code (fst r), sizes_list (snd r))) (history ops fresh).
+
+(* per operation: is it in class C07b (an error can be raised while a string / sequence is under construction)? *)
+Definition c07b_flags (ops : list hostop) : list bool := map (fun h => negb (builder_safe (hostop_code h))) ops.
+Definition history_out2 (ops : list hostop) : list (Z * list Z) * list bool := (history_out ops, c07b_flags ops).
 
 (* n repetitions of one operation *)
 Fixpoint repeat_op (n : nat) (h : hostop) : list hostop :=
@@ -36,3 +40,17 @@ Definition timer_out (debug : bool) (lim : Z) (t0 : Z) (segs : list (Z * Z)) (n0
   reads_oracle 1 (mkTimer (last_check tm) (deadline tm) (interval_ns tm) n0 (since tm) (limit tm)) (expand t0 segs) orc.
 
 Definition timer_first (debug : bool) (lim : Z) : Z := interval_instr (timer_new debug lim 0).
+
+(* C07 REPL: per typed line (action code, number of pending lines afterwards) *)
+Definition action_code (a : action) : Z :=
+  match a with
+  | Ran _ true => 0 | Ran _ false => 1 | RanHelp _ => 2 | CompileHelp => 3 | CompileError => 4
+  | NeedMore => 5 | Collected => 6 | Interrupted => 7
+  end.
+Fixpoint repl_trace (es : list event) (st : repl) : list (Z * Z * Z) :=
+  match es with
+  | [] => []
+  | e :: rest => let '(a, st') := step st e in
+                 (action_code a, Z.of_nat (length (continued st')), Z.of_nat (length (chunk_of a))) :: repl_trace rest st'
+  end.
+Definition repl_out (es : list event) : list (Z * Z * Z) := repl_trace es repl_start.
